@@ -29,12 +29,14 @@ def events(rich=False):
                 ev.append(("replace", o, ("fresh", "d1"), n, "desc"))
                 ev.append(("replace", o, ("get", n), None, None))
         ev.append(("replace", o, ("parsed", "p1"), None, None))
+        ev.append(("replace", o, ("fresh", "d2"), None, "note"))
         ev.append(("remove", o))
         ev.append(("enable", o))
         ev.append(("disable", o))
         ev.append(("move", o, "up"))
         ev.append(("move", o, "down"))
     ev.append(("replace", "a", ("parsed", "p2"), None, None))
+    ev.append(("replace", "b", ("get", "b"), None, ""))
     # definitions whose only test is a constant (`false` is also what the disabled wrapper tests)
     ev.append(("add", "a", "d10"))
     ev.append(("update", "b", "b", "d10"))
